@@ -37,6 +37,7 @@ import (
 //     (one `+` continuation request per literal, then one tagged completion);
 //   - an accepted IDLE (authenticated) is answered by `+`; the line that follows it - whatever it is - ends the IDLE
 //     and the pair gets one completion carrying the IDLE's tag (OK for DONE; BAD / NO otherwise, handle_idle.go);
+//   - STARTTLS (no TLS configured: NO) is answered by the reader goroutine, also while an IDLE is pending;
 //   - LOGOUT is answered by BYE + tagged OK and the connection is closed;
 //   - internal/session/session.go maxSessionError = 20: after 20 consecutive lines rejected by the parser the session
 //     is closed (after the 20th BAD). A command the parser accepts resets the count (whatever its own result is).
@@ -74,6 +75,7 @@ type connPlan struct {
 	Full    bool   // the whole stream is accountable and leaves the session open: DONE (if idling) + probe follow
 	Closes  string // "" | logout | error-limit
 	IdleTag string // an IDLE is pending at the end of the accountable part
+	IdleHas bool   // ... and its line starts with a valid tag
 	Abrupt  string // fin | rst (how the client ends a connection that is not Full)
 	Linger  bool
 	Chunks  []int
@@ -126,13 +128,30 @@ func buildPlan(x *gen, s *stream, auth string) *connPlan {
 			p.Conts += u.Literals
 		}
 
+		if _, tls := payload.(*command.StartTLS); tls && accepted {
+			// STARTTLS is answered by the reader goroutine itself (session/command.go): it never reaches the session
+			// goroutine, so it neither ends a pending IDLE nor touches the error count.
+			p.Accepts++
+			p.Expects = append(p.Expects, expectation{Unit: i, Tag: u.Tag, HasTag: u.HasTag, What: "NO (TLS is unavailable)"})
+
+			continue
+		}
+
 		if idlePending {
 			// this line ends the IDLE: one completion for the pair, with the IDLE's tag
 			idlePending = false
-			p.Expects = append(p.Expects, expectation{Unit: i, Tag: p.IdleTag, HasTag: true, What: "the completion of IDLE, ended by this line"})
+			p.Expects = append(p.Expects, expectation{Unit: i, Tag: p.IdleTag, HasTag: p.IdleHas, What: "the completion of IDLE, ended by this line"})
 			p.IdleTag = ""
 
 			continue
+		}
+
+		if !accepted && hasTLSHeader(u.B) {
+			// documented: "TLS Handshake detected while not running with TLS/SSL" - the reader returns, no response
+			complete = false
+			off -= len(u.B)
+
+			break
 		}
 
 		if !accepted {
@@ -158,7 +177,7 @@ func buildPlan(x *gen, s *stream, auth string) *connPlan {
 		case *command.Idle:
 			if authed {
 				idlePending = true
-				p.IdleTag = u.Tag
+				p.IdleTag, p.IdleHas = u.Tag, u.HasTag
 				p.Conts++
 			} else {
 				p.Expects = append(p.Expects, expectation{Unit: i, Tag: u.Tag, HasTag: u.HasTag, What: "NO (not authenticated)"})
@@ -187,13 +206,20 @@ func buildPlan(x *gen, s *stream, auth string) *connPlan {
 
 		if idlePending {
 			p.Send = append(p.Send, "DONE\r\n"...)
-			p.Expects = append(p.Expects, expectation{Unit: -1, Tag: p.IdleTag, HasTag: true, What: "OK IDLE (DONE sent by the harness)"})
+			p.Expects = append(p.Expects, expectation{Unit: -1, Tag: p.IdleTag, HasTag: p.IdleHas, What: "OK IDLE (DONE sent by the harness)"})
 		}
 
-		p.Send = append(p.Send, "ZZ9 NOOP\r\n"...)
+		p.Send = append(p.Send, "ZZ9PROBE0 NOOP\r\n"...)
 	default:
 		p.Send = input
 		p.Abrupt = pickOf(x, "abrupt", []string{"fin", "rst"})
+
+		// F-C11a (while listed): a reset may discard what the server has not read yet, so the server can see any
+		// prefix of the stream - also one that ends inside a quoted string. Streams with a '"' end with FIN only.
+		if p.Abrupt == "rst" && kf.Listed(kfQuotedEOF) && bytes.IndexByte(input, '"') >= 0 {
+			p.Abrupt = "fin"
+			x.excluded++
+		}
 		p.Linger = x.chance("linger", 1, 2)
 	}
 
@@ -202,13 +228,23 @@ func buildPlan(x *gen, s *stream, auth string) *connPlan {
 	return p
 }
 
+func hasTLSHeader(b []byte) bool {
+	for _, h := range tlsHeaders {
+		if bytes.HasPrefix(b, h) {
+			return true
+		}
+	}
+
+	return false
+}
+
 // payloadStrings collects the string values of a parsed command.
 func payloadStrings(p command.Payload) []string {
 	var out []string
 
 	var walk func(v reflect.Value, depth int)
 	walk = func(v reflect.Value, depth int) {
-		if !v.IsValid() || depth > 12 {
+		if !v.IsValid() || depth > 200 {
 			return
 		}
 
@@ -506,6 +542,8 @@ func runConn(addr string, p *connPlan, budget time.Duration) (res connResult) {
 		return errors.Is(err, io.EOF) || strings.Contains(err.Error(), "reset by peer") || strings.Contains(err.Error(), "broken pipe")
 	}
 
+	lenient := false // behind the accountable head of a stream the responses may echo the damage: not judged
+
 	// read responses until cond says stop
 	read := func(stop func() bool, d time.Duration) {
 		for !stop() {
@@ -531,15 +569,19 @@ func runConn(addr string, p *connPlan, budget time.Duration) (res connResult) {
 				}
 			default:
 				c, ok := parseCompletion(resp)
+				if !ok && lenient {
+					continue
+				}
+
 				if !ok {
 					res.Violation = fmt.Sprintf("the server sent a line that is neither an untagged response, a continuation request nor a completion: %s", escaped([]byte(resp), 300))
 					return
 				}
 
-				if c.Tag == "ZZ9" {
+				if c.Tag == "ZZ9PROBE0" {
 					res.ProbeOK = c.Status == "OK"
 					if !res.ProbeOK {
-						res.Violation = fmt.Sprintf("usability: the well-formed `ZZ9 NOOP` behind the stream is answered %q", c.Raw)
+						res.Violation = fmt.Sprintf("usability: the well-formed `ZZ9PROBE0 NOOP` behind the stream is answered %q", c.Raw)
 					}
 
 					return
@@ -555,15 +597,15 @@ func runConn(addr string, p *connPlan, budget time.Duration) (res connResult) {
 		read(func() bool { return false }, budget) // until the probe's completion (or the end of the connection)
 
 		if res.TimedOut == "" && res.Violation == "" && !res.ProbeOK {
-			res.Violation = "usability: the server closed the connection; the stream has neither LOGOUT nor 20 consecutive rejected lines, and `ZZ9 NOOP` was not answered"
+			res.Violation = "usability: the server closed the connection; the stream has neither LOGOUT nor 20 consecutive rejected lines, and `ZZ9PROBE0 NOOP` was not answered"
 		}
 	case p.Closes != "":
 		read(func() bool { return len(res.Completions) >= len(p.Expects) }, budget)
 
 		if res.TimedOut == "" && res.Violation == "" && !res.Closed {
 			// the session must be closed now: a probe is either not answered (end of connection) or the limit is not enforced
-			rc.log = append(rc.log, "C: ZZ9 NOOP")
-			_, _ = rc.c.Write([]byte("ZZ9 NOOP\r\n"))
+			rc.log = append(rc.log, "C: ZZ9PROBE0 NOOP")
+			_, _ = rc.c.Write([]byte("ZZ9PROBE0 NOOP\r\n"))
 
 			read(func() bool { return false }, budget)
 
@@ -581,14 +623,35 @@ func runConn(addr string, p *connPlan, budget time.Duration) (res connResult) {
 
 		if p.Linger && res.TimedOut == "" && !res.Closed && res.Violation == "" {
 			n := len(res.Completions)
+			lenient = true
+
 			read(func() bool { return false }, 30*time.Millisecond)
+
 			res.Completions = res.Completions[:n] // what follows the accountable head is not judged
 			res.TimedOut = ""
 		}
 
-		if p.Abrupt == "rst" {
-			if tc, ok := rc.c.(*net.TCPConn); ok {
-				_ = tc.SetLinger(0)
+		tc, _ := rc.c.(*net.TCPConn)
+
+		switch {
+		case p.Abrupt == "rst" && tc != nil:
+			_ = tc.SetLinger(0) // reset: what the server has not read yet may be lost
+		case tc != nil && res.TimedOut == "" && !res.Closed && res.Violation == "":
+			// orderly end of the client's side (FIN): everything sent reaches the server, then the end of the stream.
+			// (Closing with unread responses would turn into a reset.) The server must let go of the connection.
+			wg.Wait()
+
+			_ = tc.CloseWrite()
+			n := len(res.Completions)
+			lenient = true
+
+			read(func() bool { return false }, budget)
+
+			res.Completions = res.Completions[:n] // what follows the accountable head is not judged
+			res.ProbeOK = false
+
+			if res.TimedOut != "" {
+				res.TimedOut = "the server did not close the connection after the client's FIN: " + res.TimedOut
 			}
 		}
 	}
@@ -622,17 +685,43 @@ func runConn(addr string, p *connPlan, budget time.Duration) (res connResult) {
 		return res
 	}
 
-	for i, e := range p.Expects {
-		c := res.Completions[i]
-		if !e.HasTag || c.Tag == e.Tag {
+	// Every line's tag must come back on exactly one completion. The order is not judged: RFC 3501 5.5 lets a server
+	// complete pipelined commands out of order (gluon's reader goroutine answers STARTTLS itself, ahead of the session
+	// goroutine).
+	used := make([]bool, len(res.Completions))
+
+	find := func(pred func(c completion) bool) bool {
+		for i, c := range res.Completions {
+			if !used[i] && pred(c) {
+				used[i] = true
+				return true
+			}
+		}
+
+		return false
+	}
+
+	for _, e := range p.Expects {
+		if !e.HasTag {
 			continue
 		}
 
-		if kf.Listed(kfTagLost) && c.Tag == "" && (strings.Contains(c.Text, "expected CR") || strings.Contains(c.Text, "expected LF after CR")) {
+		if find(func(c completion) bool { return c.Tag == e.Tag }) {
 			continue
 		}
 
-		res.Violation = fmt.Sprintf("tag: completion %d is %q; it answers unit %d %s whose tag is %q", i, c.Raw, e.Unit, summarise(p.S.Units[max(e.Unit, 0)].B), e.Tag)
+		if kf.Listed(kfTagLost) && find(func(c completion) bool {
+			return c.Tag == "" && (strings.Contains(c.Text, "expected CR") || strings.Contains(c.Text, "expected LF after CR"))
+		}) {
+			continue
+		}
+
+		var got []string
+		for _, c := range res.Completions {
+			got = append(got, c.Raw)
+		}
+
+		res.Violation = fmt.Sprintf("tag: no completion carries the tag %q of unit %d %s; completions received: %q", e.Tag, e.Unit, summarise(p.S.Units[max(e.Unit, 0)].B), got)
 
 		return res
 	}
@@ -778,8 +867,10 @@ func playWire(wc *wireCase, budget time.Duration) (out wireOutcome) {
 
 	// every session must end once its client is gone (a reader that spins never lets go)
 	if !drain(budget) {
+		dump := sessionGoroutines()
+
 		if !drain(2 * budget) {
-			out.violation = fmt.Sprintf("non-termination: %d of %d sessions have not ended %v after all clients had disconnected (re-checked after %v)", added-removed, added, 3*budget, budget)
+			out.violation = fmt.Sprintf("non-termination: %d of %d sessions have not ended %v after all clients had disconnected (re-checked after %v)\ngoroutines of the sessions that are left (taken after %v):\n%s", added-removed, added, 3*budget, budget, budget, dump)
 		} else {
 			out.inconclusive = fmt.Sprintf("sessions took more than %v to end after the clients had disconnected", budget)
 		}
@@ -790,6 +881,22 @@ func playWire(wc *wireCase, budget time.Duration) (out wireOutcome) {
 	}
 
 	return out
+}
+
+// sessionGoroutines returns the stacks of the goroutines that run session code.
+func sessionGoroutines() string {
+	buf := make([]byte, 4<<20)
+	buf = buf[:runtime.Stack(buf, true)]
+
+	var keep []string
+
+	for _, g := range strings.Split(string(buf), "\n\n") {
+		if strings.Contains(g, "gluon/internal/session.") || strings.Contains(g, "gluon/internal/state.") {
+			keep = append(keep, g)
+		}
+	}
+
+	return strings.Join(keep, "\n\n")
 }
 
 func (wc *wireCase) describe(out wireOutcome) string {
@@ -826,13 +933,30 @@ func liveHeap() uint64 {
 
 // TestWire: the wire layer.
 func TestWire(t *testing.T) {
-	ev.Checks(250, 1250)
+	ev.Checks(350, 1250)
 
 	var (
 		heap0     uint64
 		cases     int
 		totalSent int
 	)
+
+	// The servers of all earlier cases are closed: nothing of them may be left. Checked every 25 cases and at the end.
+	heapCheck := func() string {
+		heap1 := liveHeap()
+		budget := uint64(wireHeapFixed) + wireHeapPerByte*uint64(totalSent)
+
+		if os.Getenv("C11_CALIBRATE") != "" {
+			t.Logf("live heap: %d -> %d (+%d) after %d cases, %d bytes sent; budget %d", heap0, heap1, int64(heap1)-int64(heap0), cases, totalSent, budget)
+		}
+
+		if heap1 > heap0 && heap1-heap0 > budget {
+			return fmt.Sprintf("VERIF-VIOLATION C11: memory: the live heap of the server process grew by %d bytes over %d streams carrying %d bytes in total (budget %d + %d per byte = %d); the servers of all these cases are closed, nothing of them should be left",
+				heap1-heap0, cases-3, totalSent, wireHeapFixed, wireHeapPerByte, budget)
+		}
+
+		return ""
+	}
 
 	rapid.Check(t, func(t *rapid.T) {
 		if cases == 3 {
@@ -841,6 +965,12 @@ func TestWire(t *testing.T) {
 		}
 
 		cases++
+
+		if cases > 3 && cases%25 == 0 {
+			if msg := heapCheck(); msg != "" {
+				t.Fatalf("%s", msg)
+			}
+		}
 
 		x := newGen(t, true)
 		wc := &wireCase{}
@@ -997,16 +1127,8 @@ func TestWire(t *testing.T) {
 	})
 
 	if cases > 3 && !t.Failed() {
-		heap1 := liveHeap()
-		budget := uint64(wireHeapFixed) + wireHeapPerByte*uint64(totalSent)
-
-		if os.Getenv("C11_CALIBRATE") != "" {
-			t.Logf("live heap: %d -> %d (+%d) after %d cases, %d bytes sent; budget %d", heap0, heap1, int64(heap1)-int64(heap0), cases, totalSent, budget)
-		}
-
-		if heap1 > heap0 && heap1-heap0 > budget {
-			t.Fatalf("VERIF-VIOLATION C11: memory: the live heap of the server process grew by %d bytes over %d streams carrying %d bytes in total (budget %d + %d per byte = %d); the servers of all cases are closed, nothing of them should be left",
-				heap1-heap0, cases-3, totalSent, wireHeapFixed, wireHeapPerByte, budget)
+		if msg := heapCheck(); msg != "" {
+			t.Fatalf("%s", msg)
 		}
 	}
 }
